@@ -108,6 +108,11 @@ fn payload_of(e: &PErr) -> Vec<String> {
 }
 
 pub fn judge(d: &Decl, c: &LineCase, reply: &Value) -> Result<Option<Expect>, (String, String)> {
+    judge_opts(d, c, reply, true)
+}
+
+/// `help_on = false`: the crate was built without the help feature, so no line is a help request
+pub fn judge_opts(d: &Decl, c: &LineCase, reply: &Value, help_on: bool) -> Result<Option<Expect>, (String, String)> {
     let what = format!("declaration d{} line {:?}", d.id, c.line);
     if let Some(p) = reply.get("panic").and_then(|p| p.as_str()) {
         return Err((format!("{}: no panic", what), p.to_string()));
@@ -115,7 +120,7 @@ pub fn judge(d: &Decl, c: &LineCase, reply: &Value) -> Result<Option<Expect>, (S
     if let Some(e) = reply.get("error").and_then(|p| p.as_str()) {
         return Err((format!("{}: Ok (working sink)", what), e.to_string()));
     }
-    if is_help_request(&c.tokens) != Some(false) {
+    if help_on && is_help_request(&c.tokens) != Some(false) {
         return Ok(None); // C12's domain
     }
     let exp = ref_parse(d, &c.tokens[0], &c.tokens[1..]);
